@@ -24,7 +24,7 @@ P(str) == str
 Probe == LET inner == Obj(<<<<97>>, <<49>>, <<>>, <<48>>>>, <<IntV(1), Arr(<<Null>>), Str(<<120>>), Null>>)      \* (the member "0" holds null: a value, not "missing")
              leaf == Arr(<<IntV(0), inner, Str(<<97, 98>>)>>)
              ks == <<<<97>>, <<48>>, <<49>>, <<126>>, <<47>>, <<>>, <<233>>, <<32>>, <<45>>, <<43>>, <<35>>, <<48, 49>>, <<43, 49>>, <<32, 49>>, <<126, 49>>, <<97, 47>>, <<49, 1634>>, <<49, 50>>>>
-         IN Obj(ks, [i \in 1..Len(ks) |-> IF i % 3 = 0 THEN inner ELSE leaf])
+         IN Obj(ks, [i \in 1..Len(ks) |-> IF ks[i] = <<43>> THEN Arr(<<Null>>) ELSE IF i % 3 = 0 THEN inner ELSE leaf])      \* ("+" holds a one-element array)
 
 Parts == {PtrEscape(t) : t \in JoinTokens}                                    \* a single token, escaped
          \cup {PtrEscape(<<97>>) \o <<SLASH>> \o PtrEscape(t) : t \in {<<49>>, <<126>>, <<>>}}   \* two tokens
@@ -36,7 +36,8 @@ ASSUME PrintT(ToJson([probe |-> Probe]))
 Observe(p) == [toks |-> p, text |-> PrintPtr(p),
                res |-> LET r == Resolve(Probe, p) IN IF IsErr(r) THEN [ok |-> FALSE, loc |-> <<>>] ELSE [ok |-> TRUE, loc |-> LocOfPtr(Probe, p)]]
 
-Init == /\ ptr0 \in SeqsUpTo(Tokens, MaxToks)
+\* (two start pointers with a token that reads as a percent-encoded character: three ordinary characters unless URI decoding is asked for)
+Init == /\ ptr0 \in SeqsUpTo(Tokens, MaxToks) \cup {<<<<37, 52, 49>>>>, <<<<97>>, <<97, 37, 50, 70, 98>>>>}
         /\ ptr = ptr0
         /\ hist = <<>>
 
